@@ -1,7 +1,7 @@
 import ZipVerif.Basic.RsM
 /-
 Prelude for the READER GLUE translated by `rs2lean` (tier T6, helper t6r): `ZipArchive::new`, `find_content`,
-`by_index*`, `make_crypto_reader`, `make_reader`, `read_zipfile_from_stream` (src/read.rs).
+`by_index*`, `make_crypto_reader`, `make_reader`, `read_zipfile_from_stream` (src/read.rs; helpers t6r, t6r2).
 
 Meaning of the additional Rust constructs, given ONCE here:
 
@@ -117,6 +117,35 @@ structure AesValid (Mo : Type) where
 structure ReadExt (V Mo : Type) where
   zcValidate : Take → Bytes → V → M Bool
   aesValidate : Take → Mo → UInt64 → Bytes → M Bool
+
+/-! ### The decoders `make_reader` stacks on the decryption layer: OPAQUE records of their inner reader
+
+`flate2::read::DeflateDecoder<R>`, `bzip2::read::BzDecoder<R>`, `zstd::stream::read::Decoder<'_, BufReader<R>>`
+and `io::BufReader<R>` are external code.  `make_reader` only BUILDS them; what is tied is which one is built,
+over which inner reader, and what the `Crc32Reader` around it is given.  `T::new(r)` records `r` (a fresh decoder
+has no other state the translated functions observe).  `zstd::Decoder::new(r)` returns an `io::Result` (it fails
+only when the zstd decompression context cannot be allocated): taken as `Ok`; `.unwrap()` on an `io::Result` is
+`unwrapRes`. -/
+
+structure DeflateDecoder (R : Type) where
+  inner : R
+structure BzDecoder (R : Type) where
+  inner : R
+structure BufReader (R : Type) where
+  inner : R
+structure ZstdDecoder (R : Type) where
+  inner : R
+
+/-- `DeflateDecoder::new(r)` -/
+def DeflateDecoder.new {R : Type} (r : R) : DeflateDecoder R := ⟨r⟩
+/-- `BzDecoder::new(r)` -/
+def BzDecoder.new {R : Type} (r : R) : BzDecoder R := ⟨r⟩
+/-- `zstd::stream::read::Decoder::new(r)`: wraps `r` into a `BufReader`; an `io::Result` -/
+def ZstdDecoder.new {R : Type} (r : R) : Except ZipVerif.IoKind (ZstdDecoder (BufReader R)) := .ok ⟨⟨r⟩⟩
+/-- `res.unwrap()` on a `Result`: a panic (`none`) on `Err` -/
+def unwrapRes {ε α : Type} : Except ε α → Option α
+  | .ok a => some a
+  | .error _ => none
 
 namespace R
 variable {V Mo : Type}
